@@ -48,6 +48,9 @@ type TaskProg struct {
 	// FileWrites: extensions written through the file helper Subtitles.Write into the scenario's directory
 	// (one directory shared by all tasks, distinct file names) and read back through OpenFile. Real OS, not simulated.
 	FileWrites []string `json:"file_writes,omitempty"`
+	// OpenExt: when set, the document is first stored as <dir>/<tag>-in.<ext> and read through the file
+	// helper astisub.Open (with the teletext options of Reader) instead of the simulated stream.
+	OpenExt string `json:"open_ext,omitempty"`
 }
 
 // c20Dir is the directory file steps use; set before a scenario starts, read-only while tasks run.
@@ -98,7 +101,18 @@ func execTaskAt(p TaskProg, tag string) (rec []string) {
 	sr := simio.NewReader(p.Doc, p.Plan)
 	sr.Hook = hook
 	sr.MaxEvents = 64*len(p.Doc) + 10000
-	s, err, pn := api.Read(p.Reader, sr.Wrap())
+	var s *astisub.Subtitles
+	var err error
+	var pn string
+	if p.OpenExt != "" && c20Dir != "" {
+		path := filepath.Join(c20Dir, tag+"-in."+p.OpenExt)
+		if werr := os.WriteFile(path, p.Doc, 0o644); werr != nil {
+			return append(rec, "open:cannot-store")
+		}
+		s, err, pn = fileOpenOpts(path, p.Reader)
+	} else {
+		s, err, pn = api.Read(p.Reader, sr.Wrap())
+	}
 	switch {
 	case sr.Overrun:
 		return append(rec, "read:overrun")
@@ -185,6 +199,23 @@ func fileWrite(s *astisub.Subtitles, path string) (err error, panicked string) {
 		}
 	}()
 	return s.Write(path), ""
+}
+
+func fileOpenOpts(path, reader string) (s *astisub.Subtitles, err error, panicked string) {
+	defer func() {
+		if p := recover(); p != nil {
+			panicked = fmt.Sprint(p)
+		}
+	}()
+	o := astisub.Options{Filename: path}
+	switch reader {
+	case "ts":
+		o.Teletext = astisub.TeletextOptions{PID: api.TSPID, Page: api.TSPage}
+	case "stl-ignoretc":
+		o.STL = astisub.STLOptions{IgnoreTimecodeStartOfProgramme: true}
+	}
+	s, err = astisub.Open(o)
+	return
 }
 
 func fileOpen(path string) (s *astisub.Subtitles, err error, panicked string) {
@@ -704,6 +735,10 @@ func genTask(r *prng.R, pool *docPool, idx int, theme string) TaskProg {
 	nw := r.Intn(3)
 	for i := 0; i < nw; i++ {
 		t.Writers = append(t.Writers, api.WriterFormats[r.Intn(len(api.WriterFormats))])
+	}
+	if (r.Bool(0.15) || theme == "files") && t.Reader != "ssa-opts" {
+		// through the file helper: the extension selects the reader, so only configurations Open can express
+		t.OpenExt = map[string]string{"srt": "srt", "vtt": "vtt", "ssa": r.Pick("ssa", "ass"), "stl": "stl", "ttml": "ttml", "ts": "ts"}[d.Format]
 	}
 	if r.Bool(0.3) || theme == "files" {
 		for i := r.Range(1, 2); i > 0; i-- {
